@@ -3,6 +3,7 @@ import Driver.Graph
 import Driver.Types
 import Driver.Names
 import Driver.Validators
+import Driver.History
 /-! `tgdriver`: reads one JSON request per line on stdin, answers one JSON line per request. -/
 open Lean Drv
 
@@ -17,6 +18,7 @@ def dispatch (op : String) (inp imp : Json) : Except String Json :=
   | "name" => opName inp imp
   | "fieldAttrs" => opFieldAttrs inp imp
   | "validator" => opValidator inp imp
+  | "history" => opHistory inp imp
   | _ => .error s!"unknown op {op}"
 
 def handleLine (line : String) : String :=
